@@ -449,6 +449,68 @@ func c15Configs(tier string) []c15Cfg {
 	return out
 }
 
+// c15Module: the whole module, configuration parsed from its text form. A configured crl_file is a symbolic link
+// ("current.crl" -> the list of the day); the next list is published by pointing the link at another file. Within two
+// update intervals the certificate the new list names is rejected.
+func c15Module(chk *fw.Check) (n int) {
+	p := world.Std()
+	for _, storage := range []string{"memory", "disk"} {
+		for _, how := range []string{"link-switched", "file-replaced-by-rename"} {
+			n++
+			storage, how := storage, how
+			label := fmt.Sprintf("module crl_files publication=%s storage=%s", how, storage)
+			res := seqWorld(func() {
+				net := world.NewNet()
+				dir, files := FreshDir("c15m"), FreshDir("c15mf")
+				defer os.RemoveAll(dir)
+				defer os.RemoveAll(files)
+				real1, real2, link := filepath.Join(files, "list-1.crl"), filepath.Join(files, "list-2.crl"), filepath.Join(files, "current.crl")
+				os.WriteFile(real1, world.SimpleCRL(p.CA, 1, 801).DER(), 0644)
+				os.WriteFile(real2, world.SimpleCRL(p.CA, 2, 801, 802).DER(), 0644)
+				if how == "link-switched" {
+					os.Symlink(real1, link)
+				} else {
+					os.WriteFile(link, world.SimpleCRL(p.CA, 1, 801).DER(), 0644)
+				}
+				w := NewTW(TWOpt{Mode: "crl_only", Net: net, CRL: &config.CRLConfig{WorkDir: dir, StorageType: storage, UpdateInterval: "10m", CRLFiles: []string{link},
+					TrustedSignatureCertsFiles: []string{WritePEM(files, "ca.pem", p.CA.Cert)}}})
+				if err := w.Provision(); err != nil {
+					chk.Violation("C15|provision-fails|"+label, err.Error(), nil)
+					return
+				}
+				vsched.Drain()
+				l1, l2 := world.Leaf(p.CA, bi(801), nil, nil), world.Leaf(p.CA, bi(802), nil, nil)
+				if v1, v2 := w.Handshake(world.Chain(l1, p.CA, p.Root)), w.Handshake(world.Chain(l2, p.CA, p.Root)); !v1.Rejected() || v2.Rejected() {
+					chk.Violation("C15|harness|module-setup|"+label, fmt.Sprintf("before the publication: 801=%s 802=%s", v1, v2), nil)
+					return
+				}
+				if how == "link-switched" {
+					tmp := link + ".new"
+					os.Symlink(real2, tmp)
+					os.Rename(tmp, link)
+				} else {
+					tmp := link + ".new"
+					os.WriteFile(tmp, world.SimpleCRL(p.CA, 2, 801, 802).DER(), 0644)
+					os.Rename(tmp, link)
+				}
+				for i := 0; i < 2; i++ {
+					vsched.Advance(10*time.Minute + time.Second)
+					vsched.Drain()
+				}
+				if v := w.Handshake(world.Chain(l2, p.CA, p.Root)); !v.Rejected() {
+					chk.Violation("C15|new-revocation-not-enforced|"+label, "two update intervals after the next list was published the certificate it names is still accepted", nil)
+				}
+				w.Cleanup()
+				vsched.Drain()
+			})
+			if res.Verdict != vsched.OK {
+				chk.Violation("C15|"+res.Verdict.String()+"|"+label, firstLines(res.Detail, 5), nil)
+			}
+		}
+	}
+	return
+}
+
 // RunC15 is the entry point of the C15 check.
 func RunC15(tier string, args []string) int {
 	chk := fw.NewCheck("C15", tier, "model_checking")
@@ -473,6 +535,7 @@ func RunC15(tier string, args []string) int {
 			chk.Violation(v.Sig, fmt.Sprintf("[%s] %s", cfg, v.What), map[string]interface{}{"driver": "C15", "config": cfg.String()})
 		}
 	}
+	states += c15Module(chk)
 	cov := fw.Coverage{
 		"states":                        states,
 		"transitions":                   transitions,
